@@ -8,7 +8,7 @@ from vcheck.core import cmat, coq_eval, cvec
 from vcheck.props.c04 import decide
 from vcheck.props.c05 import KIDX, impl_show
 
-IMPORTS = "Model.QSMCore Model.QSMSolve Model.QSMOps Model.Show"
+IMPORTS = "Model.QSMCore Model.QSMSolve Model.QSMOps Model.Show Model.Reshape"
 TOL = 1e-9
 
 
@@ -37,6 +37,9 @@ def well_conditioned(rng, kind, n, ml, mu):
     if kind == "Symm":
         s["d"] = np.abs(s["d"])
     return s
+
+
+from vcheck.props.c04 import nd_rows  # noqa: E402
 
 
 def run(chk):
@@ -98,7 +101,11 @@ def run(chk):
                         y2 = y.reshape(n, -1)
                         t = s["l"] if kind == "Lower" else s["u"]
                         fn = "lower_solve" if kind == "Lower" else "upper_solve"
-                        exprs.append(f"([:: 2], flatten ({fn} K {y2.shape[1]} {cvec(s['d'])} {gen.tri_coq(t)} {cmat(y2)}))")
+                        if len(tail) >= 2:   # rank >= 3: through the model of the reshape wrapper (Model/Reshape.v)
+                            ds = "[:: " + "; ".join(str(v) for v in tail) + "]%nat"
+                            exprs.append(f"([:: 2], flatten (map (@flat float) (wrap K ({fn} K {y2.shape[1]} {cvec(s['d'])} {gen.tri_coq(t)}) {ds} {nd_rows(y)})))")
+                        else:
+                            exprs.append(f"([:: 2], flatten ({fn} K {y2.shape[1]} {cvec(s['d'])} {gen.tri_coq(t)} {cmat(y2)}))")
                         expect.append((dict(op="solve", a=gen.spec_json(s), y=y.tolist()), [2], x.ravel()))
                         hist["solve:" + kind] = hist.get("solve:" + kind, 0) + 1
                         want = np.linalg.solve(D, y2).reshape(y.shape)
